@@ -15,7 +15,7 @@ it: `identifier` (ordinary name space: objects, functions, parameters,
 enumeration constants), `identifier/tag`, `identifier/member`,
 `identifier/label`, `identifier/typedef-declared` (the name a typedef
 declaration introduces).  All are spelled `a` except the last (fresh names
-U, V, W, ... numbered per sentence by render()).
+U1, V1, W1, ... numbered per sentence by spell()).
 
 build() returns the production dict that is enumerated:
 
@@ -387,18 +387,50 @@ BINARY_OPERATORS = ["*", "/", "%", "+", "-", "<<", ">>", "<", ">", "<=", ">=",
 UNARY_OPERATORS = ["*", "&", "+", "-", "~", "!"]
 ASSIGNMENT_OPERATORS = ["=", "*=", "/=", "%=", "+=", "-=", "<<=", ">>=", "&=",
                         "^=", "|="]
-# other identifiers: plain, with digits/underscore, keyword look-alikes, the
-# literal-prefix letters used as names
-OTHER_IDENTIFIERS = ["b", "_x1", "intx", "_Boolx", "sizeofa", "L", "u", "u8"]
-# other constants: C99 6.4.4 kinds and suffixes, C11 u'' U''
-OTHER_CONSTANTS = [
-    "0", "07", "0x1F", "0XaB", "1u", "1U", "1l", "1L", "1ul", "1UL", "1lu",
-    "1ll", "1LL", "1ull", "1LLU", "0x1Full",
-    "1.5", "1.", ".5", "1e3", "1E+3", "1.5e-3", "1.5f", "1.5F", "1.5l", "1.5L",
-    "1e3f", "0x1.8p3", "0x1p-3", "0X.8P+3f", "0x1.p3L",
-    "'c'", "'\\n'", "'\\''", "'\\x41'", "'\\101'", "'ab'", "L'c'", "u'c'", "U'c'",
-]
-OTHER_STRINGS = ['""', '"\\n"', '"\\""', 'L"s"', 'u8"s"', 'u"s"', 'U"s"']
+# Other members of the lexical classes, written from C99 6.4.2 / 6.4.4 / 6.4.5
+# (and C11 6.4.4.4 / 6.4.5 for u U u8), not from pycparser's regular expressions.
+# identifiers (6.4.2.1): a lone underscore, digits after the first character,
+# keyword look-alikes (a keyword plus one more character, a keyword in another
+# case), the literal-prefix letters as plain names, `$` (6.4.2.1 "other
+# implementation-defined characters"; documented pycparser extension, gcc too)
+OTHER_IDENTIFIERS = ["b", "_", "_x1", "$d", "intx", "_Boolx", "sizeofa", "do1", "If",
+                     "L", "u", "U", "u8"]
+
+# integer-suffix (6.4.4.1): unsigned-suffix long-suffix? | unsigned-suffix
+# long-long-suffix | long-suffix unsigned-suffix? | long-long-suffix
+# unsigned-suffix?, with u|U, l|L, ll|LL
+_U, _L, _LL = ["u", "U"], ["l", "L"], ["ll", "LL"]
+INTEGER_SUFFIXES = (
+    _U + _L + _LL
+    + [a + b for a in _U for b in _L + _LL]
+    + [b + a for a in _U for b in _L + _LL]
+)
+OTHER_CONSTANTS = (
+    # 6.4.4.1 integer constants: decimal, octal (incl. 0 and 00), hexadecimal
+    ["0", "00", "07", "0777", "10", "0x0", "0x1F", "0XaB", "0xabcdefABCDEF"]
+    + ["1" + sfx for sfx in INTEGER_SUFFIXES]
+    + ["0x1Full", "07LLu", "0uLL"]
+    # 6.4.4.2 decimal floating constants: fractional-constant exponent-part?
+    # floating-suffix? | digit-sequence exponent-part floating-suffix?
+    + ["1.5", "1.", ".5", "0.", "0.0", "0e0", "1e3", "1E+3", "1.e+3", "1.5e-3", ".5E3",
+       "1.5f", "1.5F", "1.5l", "1.5L", "1e3f", "1.L",
+       # the digit-sequence of a floating constant is decimal whatever its first
+       # digit: a leading 0 followed by 8 or 9 is a valid floating constant
+       "08.5", "09e1", "0009.L", "0128.25f", "019.", "08e0", "00.5", "07.", "09.e-1F"]
+    # hexadecimal floating constants (binary-exponent-part is mandatory)
+    + ["0x1p0", "0x1.8p3", "0x1p-3", "0X.8P+3f", "0x.8p-1f", "0x1.p3L", "0X1.P+1L"]
+    # 6.4.4.4 character constants: plain, every simple escape, octal (1-3 digits)
+    # and hexadecimal escapes, multi-character, L (C99) and u U (C11) prefixes
+    + r"""'c' '"' '\'' '\\' '\?' '\a' '\b' '\f' '\n' '\r' '\t' '\v' '\0' '\7' '\101'
+          '\x41' '\xfF' 'ab' 'abcd' L'c' L'\n' L'\x41' u'a' U'a' u'\n' U'\0'""".split()
+)
+# 6.4.5 string literals: empty, every escape kind, a quote character of the
+# other kind, question marks, comment openers and punctuation inside, prefixes
+# L (C99) and u8 u U (C11)
+OTHER_STRINGS = r"""
+    "" "\a\b\f\n\r\t\v" "\\" "\'" "\"" "\?" "'" "\0" "\101" "\x41" "a\x41\101b" "??"
+    "/*" "//" "%d;{}" L"s" u8"s" u"s" U"s" L"" u8"" L"\n" U"\x41"
+""".split()
 
 TERMINALS = {
     # symbol: (representative spelling, [other members])
@@ -408,7 +440,7 @@ TERMINALS = {
     "identifier/tag": ("a", OTHER_IDENTIFIERS + ["T"]),
     "identifier/member": ("a", OTHER_IDENTIFIERS + ["T"]),
     "identifier/label": ("a", OTHER_IDENTIFIERS),
-    "identifier/typedef-declared": ("U", []),
+    "identifier/typedef-declared": ("U1", []),
     "typedef-name/T": ("T", []),
     "constant": ("1", OTHER_CONSTANTS),
     "string": ('"s"', OTHER_STRINGS),
@@ -720,7 +752,8 @@ def unrestricted_ten_levels():
 # ---------------------------------------------------------------------------
 # rendering and substitutions
 # ---------------------------------------------------------------------------
-FRESH = ["U", "V", "W", "X", "Y", "Z", "U2", "V2", "W2", "X2"]
+# fresh typedef names (never members of the identifier class)
+FRESH = ["U1", "V1", "W1", "X1", "Y1", "Z1", "U2", "V2", "W2", "X2"]
 
 
 def spell(symbols):
